@@ -305,6 +305,22 @@ def run_shard(shard):
                 res.violate(violation(f'invalid:grade-out-of-range-accepted:{G}', f'{name}: grades=({bad_g},) accepted', case, 'an error', 'accepted'))
             except Exception:
                 pass
+        # grade tuples with a repeated or unsorted grade: refused, or - if accepted - no blade is stored twice and every supplied
+        # coefficient can be read back
+        if d >= 1:
+            for gs in ((1, 1), (0, 0), (d, 0), (1, 0, 1)):
+                res.evals += 1
+                n = sum(len(alg.indices_for_grade[g]) for g in gs)
+                rvals = [30 + 2 * i for i in range(n)]
+                for how, th in (('values', lambda: alg.multivector(list(rvals), grades=gs)), ('name', lambda: alg.multivector(name='q', grades=gs))):
+                    try:
+                        mv = th()
+                    except Exception:
+                        continue
+                    ks = list(mv.keys())
+                    if len(set(ks)) != len(ks) or len(ks) != len(mv.values()):
+                        res.violate(violation(f'invalid:repeated-grades-accepted:{G}', f'{name}: multivector({how}, grades={gs}) accepted and stores blades twice: keys {tuple(ks)}', case,
+                                              'an error, or a multivector without repeated blades', tuple(ks)))
         # length mismatch keys/values
         for keys, vals in (((1, 2), [1]), ((1,), [1, 2]), ((), [1])):
             if len(vals) == len(alg):
